@@ -21,9 +21,9 @@ LEVEL = "exploration"
 TECHNIQUE = "metamorphic property-based testing (one generated machine rendered under two independently drawn spellings; fingerprints and traces must agree) + enumerated single-point type corruption of generated configs with a 'rejected cleanly' oracle"
 RULE = (
     "Campaign spell: a generated MachineSpec (hierarchy, parallel, history with default targets, guards incl. composites, "
-    "always, onDone, after, invoke, custom ids) is rendered twice with independently drawn spellings for every construct "
+    "always, onDone, after, invoke, custom ids, nested choose/pure/enqueueActions) is rendered twice with independently drawn spellings for every construct "
     "the statement lists: string / object / one-element-list transitions, `always` vs the empty-string event, `cond` vs "
-    "`guard`, action string / list / object, delay '100' vs 100, omitted `initial` with a single child, targets as "
+    "`guard` (on transitions and on choose branches), action string / list / object, delay '100' vs 100, omitted `initial` with a single child, targets as "
     "sibling key / dotted path / leading-dot / #machine.path / #customId (only spellings that an independent model of the "
     "documented resolution order maps to the same state); oracle: equal deep fingerprints (resolved targets, full guard "
     "structure, actions, delays, invokes) and equal SyncInterpreter traces on a generated history. Campaign corrupt: every "
@@ -42,7 +42,7 @@ ASSUMPTIONS = [
 logging.disable(logging.CRITICAL)
 CASE_TIMEOUT = 120
 
-BASE = dict(after=True, invoke=True, guards="tab", p_guard=40, always=True, ondone=True, nested_builtins=False,
+BASE = dict(after=True, invoke=True, guards="tab", p_guard=40, always=True, ondone=True, nested_builtins=True,
             p_handler=35, max_iterations=30, history=True, unhandled_service_errors=False)
 BASE["raise"] = True
 
@@ -98,6 +98,16 @@ def spell(spec: dict, d: D) -> (dict, list):
         if s.get("invoke") and d.chance(50):
             ssp["invoke_list"] = True
         s["sp"] = ssp
+        # `cond` vs `guard` also inside choose branches (any nesting depth, every action list)
+        lists = [s.get("entry"), s.get("exit")] + [t.get("actions") for _f, _k, _i, t in state_transitions(s) if not t.get("null")]
+        for lst in lists:
+            for a in walk_actions(lst or []):
+                if a.get("k") == "choose":
+                    for b in a.get("branches", []):
+                        if b.get("guard") is not None:
+                            b["gkey"] = d.pick(["guard", "cond"])
+                            choices.append("choose-gkey:" + b["gkey"])
+                            _composite_forms(d, b["guard"])
         for fam in ("entry", "exit"):
             for a in s.get(fam) or []:
                 if a["k"] in ("mark", "user"):
@@ -169,6 +179,49 @@ def _trace(spec, history):
     return run, out
 
 
+def _norm_raw_guard(g):
+    """Canonical form of a guard as it sits (unparsed) inside choose params: the spelling of the
+    key, of a plain name and of composite operands is exactly what this campaign varies."""
+    if isinstance(g, str):
+        return {"type": g}
+    if isinstance(g, dict):
+        t = g.get("type")
+        p = g.get("params") if isinstance(g.get("params"), dict) else {}
+        kids = g.get("children")
+        if kids is None:
+            kids = p.get("guards", p.get("children"))
+        if kids is None and "guard" in p:
+            kids = [p["guard"]]
+        if t in ("and", "or", "not") and kids is not None:
+            return {"type": t, "children": [_norm_raw_guard(k) for k in kids]}
+        out = {"type": t}
+        if p:
+            out["params"] = p
+        return out
+    return g
+
+
+def _norm_fp(x):
+    if isinstance(x, dict):
+        if "conditions" in x and isinstance(x["conditions"], list):
+            conds = []
+            for c in x["conditions"]:
+                if isinstance(c, dict):
+                    c = dict(c)
+                    g = c.pop("cond", None)
+                    g = c.pop("guard", g)
+                    c = {k: _norm_fp(v) for k, v in c.items()}
+                    if g is not None:
+                        c["guard"] = _norm_raw_guard(g)
+                conds.append(c)
+            x = dict(x, conditions=conds)
+            return {k: (v if k == "conditions" else _norm_fp(v)) for k, v in x.items()}
+        return {k: _norm_fp(v) for k, v in x.items()}
+    if isinstance(x, list):
+        return [_norm_fp(v) for v in x]
+    return x
+
+
 def check_spell(case, res: CaseResult):
     from xstate_statemachine import create_machine
 
@@ -178,7 +231,7 @@ def check_spell(case, res: CaseResult):
         try:
             r = Renderer(spec, Recorder())
             m = create_machine(r.config(), logic=r.logic())
-            fps.append(machine_fp(m))
+            fps.append(_norm_fp(machine_fp(m)))
         except Exception as e:  # noqa
             from xstate_statemachine.exceptions import XStateMachineError
 
@@ -204,7 +257,7 @@ def check_spell(case, res: CaseResult):
 
 
 # ----------------------------------------------------------------------------- corruption
-REPL = [None, True, 7, "zz", [], {}, [1], {"x": 1}]
+REPL = [None, True, False, 0, 7, "zz", [], {}, [1], {"x": 1}]
 
 
 def _jtype(v):
